@@ -404,243 +404,4 @@ theorem dHeuristic_spec (a : AS) (h : HeuS) (k : List Nat) (hok : h.ok) (hk : NW
     simp only [bind, Except.bind, e1, e2, e3, e4, e5, e6, ↓reduceIte, e6', hp0, e7, e8, e9, pure, Except.pure, prioVal]
     exact ⟨a9, rfl, r9⟩
 
-
-/-! ### all statement kinds with atoms, literals, integers and aggregates; programs of them -/
-inductive StmtX where
-  | base (s : StmtS)
-  | minimize (m : MinimizeS)
-  | wrule (r : WRuleS)
-  | heuristic (h : HeuS)
-
-def StmtX.text : StmtX → List Nat
-  | .base s => s.text
-  | .minimize m => m.text
-  | .wrule r => r.text
-  | .heuristic h => h.text
-def StmtX.call : StmtX → Call
-  | .base s => s.call
-  | .minimize m => .minimize (prioVal m.prio) m.agg.vals
-  | .wrule r => r.call
-  | .heuristic h => h.call
-def StmtX.ok : StmtX → Prop
-  | .base s => s.ok
-  | .minimize m => m.ok
-  | .wrule r => r.ok
-  | .heuristic h => h.ok
-
-theorem head_first (h : HeadS) (hh : h.ok) (t : List Nat) : ∃ c r, h.text ++ (58 :: t) = c :: r ∧ (isLower c = true ∨ c = 123 ∨ c = 58) := by
-  cases h with
-  | choice w1 items w2 => exact ⟨123, _, rfl, Or.inr (Or.inl rfl)⟩
-  | disj items =>
-    simp only [HeadS.ok] at hh
-    by_cases hi : items = []
-    · subst hi; exact ⟨58, t, rfl, Or.inr (Or.inr rfl)⟩
-    · obtain ⟨c, r, e, hc⟩ := atomsText_head items hi (fun p hp => (hh p hp).1) (58 :: t)
-      exact ⟨c, r, e, Or.inl hc⟩
-
-theorem stmtX_follows (st : StmtX) (hok : st.ok) (k : List Nat) : Follows (st.text ++ k) := by
-  cases st with
-  | base s => exact stmt_follows s hok k
-  | minimize m => exact Or.inr ⟨35, _, rfl, Or.inr (Or.inr (Or.inr rfl))⟩
-  | heuristic h => exact Or.inr ⟨35, _, rfl, Or.inr (Or.inr (Or.inr rfl))⟩
-  | wrule r =>
-    have e0 : r.text ++ k = r.head.text ++ (58 :: (45 :: (r.wsArrow ++ (printInt r.bound ++ (r.wsBound ++ (r.agg.text ++ (46 :: r.wsDot))))) ++ k)) := by
-      simp [WRuleS.text]
-    obtain ⟨c, t, e, hc⟩ := head_first r.head hok.1 (45 :: (r.wsArrow ++ (printInt r.bound ++ (r.wsBound ++ (r.agg.text ++ (46 :: r.wsDot))))) ++ k)
-    refine Or.inr ⟨c, t, by simp only [StmtX.text]; rw [e0, e], ?_⟩
-    rcases hc with h | h | h
-    · exact Or.inl h
-    · exact Or.inr (Or.inl h)
-    · exact Or.inr (Or.inr (Or.inl h))
-
-theorem stmtLoopX_step (inc : Bool) (f : Nat) (a : AS) (acc : List Call) (st : StmtX) (k : List Nat) (hok : st.ok) (hk : Follows k)
-    (hr : a.rest = st.text ++ k) :
-    ∃ a', stmtLoop inc (f + 1) a acc = stmtLoop inc f a' (acc ++ [st.call]) ∧ a'.rest = k := by
-  have hfol := stmtX_follows st hok k
-  have hs : a.skipWs.rest = st.text ++ k := skipWs_spec a [] _ (by simpa using hr) (by intro c hc; cases hc) hfol.nws
-  have hp1 : (peekWs a).1 = (st.text ++ k).headD 0 := by show a.skipWs.peek = _; unfold AS.peek; rw [hs]
-  have hp2 : (peekWs a).2 = a.skipWs := rfl
-  cases st with
-  | base s => exact stmtLoop_step inc f a acc s k hok hk hr
-  | wrule r =>
-    obtain ⟨a', h, hr'⟩ := C10_wrule a.skipWs r k hok hk.nws hs
-    have hc0 : ((r.text ++ k).headD 0 == 0) = false ∧ ((r.text ++ k).headD 0 == 46) = false ∧ ((r.text ++ k).headD 0 == 35) = false ∧ ((r.text ++ k).headD 0 == 37) = false := by
-      rcases hfol with h0 | ⟨c, t, e, hc⟩
-      · simp only [StmtX.text] at h0
-        have := congrArg List.length h0
-        simp [WRuleS.text] at this
-      · simp only [StmtX.text] at e
-        have e0 : r.text ++ k = r.head.text ++ (58 :: (45 :: (r.wsArrow ++ (printInt r.bound ++ (r.wsBound ++ (r.agg.text ++ (46 :: r.wsDot))))) ++ k)) := by
-          simp [WRuleS.text]
-        obtain ⟨c', t', e', hc'⟩ := head_first r.head hok.1 (45 :: (r.wsArrow ++ (printInt r.bound ++ (r.wsBound ++ (r.agg.text ++ (46 :: r.wsDot))))) ++ k)
-        rw [e0, e']
-        rcases hc' with h | h | h
-        · simp [isLower] at h; simp; omega
-        · subst h; simp
-        · subst h; simp
-    simp only [StmtX.text] at hp1
-    simp only [stmtLoop, hp1, hp2, hc0.1, hc0.2.1, hc0.2.2.1, hc0.2.2.2, Bool.false_eq_true, ↓reduceIte, h, StmtX.call]
-    exact ⟨a', rfl, hr'⟩
-  | minimize m =>
-    have hw0 := hok.1
-    have hr0 : a.skipWs.rest = kwMinimize ++ (m.ws0 ++ (m.agg.text ++ (prioText m.prio ++ (46 :: m.wsDot)) ++ k)) := by
-      rw [hs]; simp [StmtX.text, MinimizeS.text]
-    obtain ⟨a1, e1, r1⟩ := alt_present kwMinimize dMinimize _ a.skipWs m.ws0 _ hr0 hw0 (by intro c r e; simp only [AggS.text, List.cons_append] at e; cases e; decide)
-    obtain ⟨a2, e2, r2⟩ := dMinimize_spec a1 m k hok hk.nws r1
-    have hdir : directive inc a.skipWs = .ok (.call (.minimize (prioVal m.prio) m.agg.vals), a2) := by
-      unfold directive
-      rw [show ([35, 109, 105, 110, 105, 109, 105, 122, 101] : List Nat) = kwMinimize from rfl, e1, e2]
-    have h35 : (m.text ++ k).headD 0 = 35 := rfl
-    simp only [StmtX.text] at hp1
-    rw [h35] at hp1
-    simp only [stmtLoop, hp1, hp2, hdir, StmtX.call]
-    exact ⟨a2, by simp, r2⟩
-  | heuristic h =>
-    have hw0 := hok.1
-    have hr0 : a.skipWs.rest = kwHeuristic ++ (h.ws0 ++ (h.tail ++ k)) := by
-      rw [hs]; simp [StmtX.text, HeuS.text]
-    obtain ⟨a1, e1, r1⟩ := alt_absent kwMinimize dMinimize _ a.skipWs (by rw [hr0]; simp [kwMinimize, kwHeuristic, List.isPrefixOf])
-    obtain ⟨a2, e2, r2⟩ := alt_absent kwProject dProject _ a1 (by rw [r1, hr0]; simp [kwProject, kwHeuristic, List.isPrefixOf])
-    obtain ⟨a3, e3, r3⟩ := alt_absent kwOutput dOutput _ a2 (by rw [r2, r1, hr0]; simp [kwOutput, kwHeuristic, List.isPrefixOf])
-    obtain ⟨a4, e4, r4⟩ := alt_absent kwExternal dExternal _ a3 (by rw [r3, r2, r1, hr0]; simp [kwExternal, kwHeuristic, List.isPrefixOf])
-    obtain ⟨a5, e5, r5⟩ := alt_absent kwAssume dAssume _ a4 (by rw [r4, r3, r2, r1, hr0]; simp [kwAssume, kwHeuristic, List.isPrefixOf])
-    have hnw : NWS (h.tail ++ k) := by
-      unfold HeuS.tail
-      rw [List.append_assoc]
-      exact lower_nws (atomItem_head h.atom hok.2.1 _)
-    obtain ⟨a6, e6, r6⟩ := alt_present kwHeuristic dHeuristic _ a5 h.ws0 _ (by rw [r5, r4, r3, r2, r1, hr0]) hw0 hnw
-    obtain ⟨a7, e7, r7⟩ := dHeuristic_spec a6 h k hok hk.nws r6
-    have hdir : directive inc a.skipWs = .ok (.call h.call, a7) := by
-      unfold directive
-      rw [show ([35, 109, 105, 110, 105, 109, 105, 122, 101] : List Nat) = kwMinimize from rfl, e1,
-          show ([35, 112, 114, 111, 106, 101, 99, 116] : List Nat) = kwProject from rfl, e2,
-          show ([35, 111, 117, 116, 112, 117, 116] : List Nat) = kwOutput from rfl, e3,
-          show ([35, 101, 120, 116, 101, 114, 110, 97, 108] : List Nat) = kwExternal from rfl, e4,
-          show ([35, 97, 115, 115, 117, 109, 101] : List Nat) = kwAssume from rfl, e5,
-          show ([35, 104, 101, 117, 114, 105, 115, 116, 105, 99] : List Nat) = kwHeuristic from rfl, e6, e7]
-    have h35 : (h.text ++ k).headD 0 = 35 := rfl
-    simp only [StmtX.text] at hp1
-    rw [h35] at hp1
-    simp only [stmtLoop, hp1, hp2, hdir, StmtX.call]
-    exact ⟨a7, by simp, r7⟩
-
-def progTextX : List StmtX → List Nat
-  | [] => []
-  | st :: r => st.text ++ progTextX r
-
-theorem progTextX_follows (l : List StmtX) (hok : ∀ st ∈ l, st.ok) : Follows (progTextX l) := by
-  cases l with
-  | nil => exact Or.inl rfl
-  | cons st r => exact stmtX_follows st (hok st (by simp)) (progTextX r)
-
-theorem stmtX_text_pos (st : StmtX) (hok : st.ok) : 1 ≤ st.text.length := by
-  cases st with
-  | base s => exact stmt_text_pos s hok
-  | minimize m => simp [StmtX.text, MinimizeS.text, kwMinimize]
-  | wrule r => simp [StmtX.text, WRuleS.text]; omega
-  | heuristic h => simp [StmtX.text, HeuS.text, kwHeuristic]
-
-theorem progTextX_length (l : List StmtX) (hok : ∀ st ∈ l, st.ok) : l.length ≤ (progTextX l).length := by
-  induction l with
-  | nil => simp [progTextX]
-  | cons st r ih =>
-    have h1 := stmtX_text_pos st (hok st (by simp))
-    have h2 := ih (fun s hs => hok s (by simp [hs]))
-    simp only [progTextX, List.length_append, List.length_cons]; omega
-
-theorem stmtLoop_progX (inc : Bool) (stmts : List StmtX) (hok : ∀ st ∈ stmts, st.ok) (f : Nat) (hf : stmts.length < f) (a : AS) (acc : List Call)
-    (hr : a.rest = progTextX stmts) :
-    ∃ a', stmtLoop inc f a acc = (acc ++ stmts.map StmtX.call, .ok a') ∧ a'.rest = [] := by
-  induction stmts generalizing f a acc with
-  | nil =>
-    cases f with
-    | zero => simp at hf
-    | succ f =>
-      have hs := skipWs_nil a hr
-      have hp : (peekWs a).1 = 0 := by show a.skipWs.peek = 0; unfold AS.peek; rw [hs]; rfl
-      simp only [stmtLoop, hp, beq_self_eq_true, ↓reduceIte, List.map_nil, List.append_nil]
-      exact ⟨(peekWs a).2, rfl, hs⟩
-  | cons st r ih =>
-    cases f with
-    | zero => simp at hf
-    | succ f =>
-      obtain ⟨a1, h1, hr1⟩ := stmtLoopX_step inc f a acc st (progTextX r) (hok st (by simp)) (progTextX_follows r (fun s hs => hok s (by simp [hs]))) hr
-      obtain ⟨a2, h2, hr2⟩ := ih (fun s hs => hok s (by simp [hs])) f (by simp at hf; omega) a1 (acc ++ [st.call]) hr1
-      exact ⟨a2, by rw [h1, h2]; simp, hr2⟩
-
-/-- **C10 (programs, all statement kinds over atoms, literals, integers and aggregates)**: a program (one step) of facts,
-    constraints, disjunctive and choice rules with normal OR weight bodies, `#minimize` (with or without priority), `#assume`,
-    `#project`, `#external`, `#edge` and `#heuristic` (all six modifiers, with or without priority and condition), written with ANY
-    filler at every optional position and ANY spelling of every atom, is read as exactly the corresponding calls in order —
-    aggregate elements of weight 0 omitted — without an error. -/
-theorem C10_read_programX (stmts : List StmtX) (hok : ∀ st ∈ stmts, st.ok) :
-    TextIn.read (progTextX stmts) = { calls := [.initProgram false, .beginStep] ++ stmts.map StmtX.call ++ [.endStep], err := none } := by
-  have hfol := progTextX_follows stmts hok
-  have hinit : (AS.init (progTextX stmts)).rest = progTextX stmts := rfl
-  have hs : (AS.init (progTextX stmts)).skipWs.rest = progTextX stmts := skipWs_spec _ [] _ (by simpa using hinit) (by intro c hc; cases hc) hfol.nws
-  have hfirst : (((AS.init (progTextX stmts)).skipWs.peek == 0 || isLower (AS.init (progTextX stmts)).skipWs.peek ||
-      [46, 35, 37, 123, 58].contains (AS.init (progTextX stmts)).skipWs.peek) = true) ∧ ((AS.init (progTextX stmts)).skipWs.peek == 37) = false := by
-    unfold AS.peek; rw [hs]
-    rcases hfol with h | ⟨c, t, e, hc⟩
-    · rw [h]; simp
-    · rw [e]
-      rcases hc with h | h | h | h
-      · simp [isLower] at h; simp [isLower, h]; omega
-      · subst h; simp
-      · subst h; simp
-      · subst h; simp
-  have hninc : ([35, 105, 110, 99, 114, 101, 109, 101, 110, 116, 97, 108] : List Nat).isPrefixOf (progTextX stmts) = false := by
-    cases stmts with
-    | nil => rfl
-    | cons st r =>
-      rcases stmtX_follows st (hok st (by simp)) (progTextX r) with h0 | ⟨c, t, e, hc⟩
-      · simp only [progTextX]; rw [h0]; rfl
-      · cases st with
-        | minimize m => simp [progTextX, StmtX.text, MinimizeS.text, kwMinimize, List.isPrefixOf]
-        | heuristic h => simp [progTextX, StmtX.text, HeuS.text, kwHeuristic, List.isPrefixOf]
-        | wrule r0 =>
-          simp only [progTextX]; rw [e]
-          have e0 : r0.text ++ progTextX r = r0.head.text ++ (58 :: (45 :: (r0.wsArrow ++ (printInt r0.bound ++ (r0.wsBound ++ (r0.agg.text ++ (46 :: r0.wsDot))))) ++ progTextX r)) := by
-            simp [WRuleS.text]
-          obtain ⟨c', t', e', hc'⟩ := head_first r0.head (hok (StmtX.wrule r0) (by simp)).1 (45 :: (r0.wsArrow ++ (printInt r0.bound ++ (r0.wsBound ++ (r0.agg.text ++ (46 :: r0.wsDot))))) ++ progTextX r)
-          simp only [StmtX.text] at e
-          rw [e0, e'] at e
-          cases e
-          rcases hc' with h | h | h
-          · simp [isLower] at h; simp [List.isPrefixOf]; omega
-          · subst h; simp [List.isPrefixOf]
-          · subst h; simp [List.isPrefixOf]
-        | base s =>
-          cases s with
-          | rule r0 =>
-            obtain ⟨c', t', e', hc'⟩ := rule_head r0 (hok (StmtX.base (StmtS.rule r0)) (by simp)) (progTextX r)
-            simp only [progTextX, StmtX.text, StmtS.text]; rw [e']
-            rcases hc' with h | h | h
-            · simp [isLower] at h; simp [List.isPrefixOf]; omega
-            · subst h; simp [List.isPrefixOf]
-            · subst h; simp [List.isPrefixOf]
-          | assume s => simp [progTextX, StmtX.text, StmtS.text, AssumeS.text, kwAssume, List.isPrefixOf]
-          | project s => simp [progTextX, StmtX.text, StmtS.text, ProjectS.text, kwProject, List.isPrefixOf]
-          | external s => simp [progTextX, StmtX.text, StmtS.text, ExternalS.text, kwExternal, List.isPrefixOf]
-          | edge s => simp [progTextX, StmtX.text, StmtS.text, EdgeS.text, kwEdge, List.isPrefixOf]
-  obtain ⟨a2, h2, hr2⟩ := tok_absent (AS.init (progTextX stmts)).skipWs [35, 105, 110, 99, 114, 101, 109, 101, 110, 116, 97, 108] (by rw [hs]; exact hninc)
-  have hatt : attach (AS.init (progTextX stmts)) = some (.ok (false, a2)) := by
-    unfold attach
-    have hsc : ∀ f, skipComments f (peekWs (AS.init (progTextX stmts))).2 = (AS.init (progTextX stmts)).skipWs := by
-      intro f; cases f with
-      | zero => rfl
-      | succ f => show skipComments (f + 1) (AS.init (progTextX stmts)).skipWs = _; simp only [skipComments, hfirst.2, Bool.false_eq_true, ↓reduceIte]
-    show (if ((AS.init (progTextX stmts)).skipWs.peek == 0 || isLower (AS.init (progTextX stmts)).skipWs.peek ||
-        [46, 35, 37, 123, 58].contains (AS.init (progTextX stmts)).skipWs.peek) = true then _ else none) = _
-    rw [if_pos hfirst.1]
-    simp only [hsc, h2]
-  obtain ⟨a3, h3, hr3⟩ := stmtLoop_progX false stmts hok (a2.rest.length + 1) (by
-    rw [hr2, hs]; have := progTextX_length stmts hok; omega) a2 [] (by rw [hr2, hs])
-  have hmore : AspifIn.more a3 = (false, a3.skipWs) := by
-    unfold AspifIn.more
-    have := skipWs_nil a3 hr3
-    simp only [AS.peek, this]; rfl
-  unfold TextIn.read
-  simp only [hatt, stepsLoop, h3, hmore, Bool.false_eq_true, Bool.false_and, ↓reduceIte, List.nil_append, List.append_assoc, List.cons_append]
-
 end PotasscoVerif.C10
